@@ -1,4 +1,5 @@
 import TypVerif.Drv.Proto
+import TypVerif.Conc.Sys
 import TypVerif.Model.Chan
 import TypVerif.Model.ChanHelpers
 /-
@@ -9,6 +10,9 @@ Queued receivers (exact; model = the loop model, spec = take/drop):
   recvqueuedfull <cap> <fill> <closed> <buflen>  => <n> <buf> <remaining>
     channel of capacity cap pre-filled with 1..fill (fill ≤ cap), closed iff closed ≠ 0; the caller's buffer
     is pre-filled with -7; remaining = what a non-blocking drain yields afterwards.
+
+  recvqueuedconc <cap> <fill> <closed> <g> <limit> => <lists> <remaining>
+    g goroutines call RecvQueued(ch, limit) at once (no sender); judged by the conservation predicate spelled out at the case below.
 
 Timed helpers (outcome sets; the helper sends 99; peers send 77):
   sendtimeout <cap> <fill> <tmo_ms> <peer>            => <bool> <peerGot> <remaining>
@@ -153,6 +157,34 @@ def step (_ : Unit) (toks : List Val) (impl : String) : Unit × Out :=
     let n := min buf.length cb.length
     let sp := toString n ++ " " ++ listStr (buf.take n ++ cb.drop n) ++ " " ++ listStr (buf.drop n)
     ((), { model := m, spec := some sp, tags := ["recvqueuedfull", "recvqueuedfull." ++ stopTag r.stop] })
+  | [.w "recvqueuedconc", .i cap, .i fill, .i closed, .i g, .i limit] =>
+    -- g concurrent RecvQueued calls on one channel holding 1..fill, no sender.  A channel hands its values out in FIFO order, each to
+    -- exactly one receiver, and a receiver stops early only when it finds the channel empty (or closed and drained).  So the outcomes are
+    -- exactly: every list strictly increasing, of length ≤ limit, values from 1..fill only (nothing invented, no zero value), no value
+    -- twice, lists ++ remaining = a partition of 1..fill with `remaining` a suffix, and if some list is shorter than the limit nothing remains.
+    if cap < 0 ∨ fill < 0 ∨ fill > cap ∨ g < 1 then ((), { model := "bad-op" }) else
+    let verdict : Option String :=
+      match implToks impl with
+      | [ls, r] =>
+        match ls.intss?, r.ints? with
+        | some lists, some rem =>
+          let lim := limit.toNat
+          let all := lists.flatten ++ rem
+          let incr (l : List Int) : Bool := (l.zip l.tail).all (fun p => p.1 < p.2)
+          if lists.length ≠ g.toNat then some "wrong-number-of-results"
+          else if all.any (fun v => v < 1 ∨ v > fill) then some "invented-value"
+          else if all.length ≠ (Conc.dedup all).length then some "value-delivered-twice"
+          else if all.length ≠ fill.toNat then some "value-lost"
+          else if lists.any (fun l => !incr l) then some "not-fifo"
+          else if lists.any (fun l => l.length > lim) then some "more-than-limit"
+          else if rem ≠ (fillList fill.toNat).drop (fill.toNat - rem.length) then some "remaining-not-a-suffix"
+          else if lists.any (fun l => l.length < lim) ∧ !rem.isEmpty then some "stopped-early-with-values-queued"
+          else none
+        | _, _ => some "unparseable-result"
+      | _ => some "unparseable-result"
+    (match verdict with
+     | none => ((), { model := impl, spec := some impl, tags := ["recvqueuedconc"] })
+     | some w => ((), { model := "violated:" ++ w, spec := some ("violated:" ++ w), tags := ["recvqueuedconc", "violated"] }))
   | [.w "sendtimeout", .i cap, .i fill, .i tmo, .i peer] =>
     match natArgs [cap, fill, peer] with
     | some [c, f, pr] => ((), sendLine "sendtimeout" (.timeout tmo) (tmo ≤ 0) c f pr impl)
